@@ -14,6 +14,7 @@ import Proofs.C01.Jacobi
 import Proofs.C01.Totality
 import Proofs.C01.EntrySecp
 import Proofs.C01.Endo
+import Proofs.C01.EndoSecp
 /-!
 # C01 — curve and field arithmetic compute exactly the group law (DESIGN.md §3 C01)
 
@@ -577,5 +578,55 @@ theorem glv_endomorphism_is_additive {F : Type} [Field F] [DecidableEq F] (b β 
 /-- non-vacuity of the `…_given_endo_law` theorems: the hypothesis `EndoLaw` at the generated `λ`, `N` holds in a
 non-trivial group of order `N` (`ZMod N`, `x ↦ λ·x`) -/
 example : EndoLaw zmodRel Gen.Curves.glv_LAM Gen.Curves.glv_N := zmod_endoLaw
+
+/-! ## wave 4 — the GLV endomorphism law PROVED for secp256k1 on `⟨G⟩`; secp256k1's own route, hypothesis-free -/
+section Secp256k1Route
+open Btc.E2E
+
+/-- `φ(G) = λ • G` on secp256k1 (`φ(x,y) = (β·x, y)`): kernel evaluation of `λ•G − φ(G)` through the PROVED
+double-and-add on the generated constants -/
+theorem glv_phi_G_eq_lambda_G : phiS G0 = Gen.Curves.glv_LAM • G0 := phiS_G0
+
+/-- **`EndoLawEc` for secp256k1 on the subgroup `⟨G⟩` generated by the generator** (`HG = zmultiples G`): btclib's
+`K = (β·X mod p, Y, Z)` is a valid triple denoting `λ • P`, and `N` kills `⟨G⟩`.  No hypothesis: `p`, `n` prime (Pratt),
+`φ` additive (`glv_endomorphism_is_additive`), `φ(G) = λ•G` (kernel), hence `φ = λ•` on `⟨G⟩`.  (`⟨G⟩` is the whole
+`n`-torsion iff the cofactor is one — not proved; the `…_given_endo_law` forms remain for subgroups other than `⟨G⟩`.) -/
+theorem endo_law_secp256k1 : EndoLawEc secp_hp HG HG_noTwoTorsion := endoLaw_secp256k1
+
+/-- **`mult(m, Q)` on secp256k1 — the pure-Python route the library runs without the bindings (fixed base for `G`,
+GLV split + regular double window otherwise) — with NO hypothesis about the curve**: every integer `m`, every blind
+`λ ≢ 0 (mod p)`, every valid `Q ∈ ⟨G⟩` (every `k•G`, `G`, infinity): a returned pair is valid and denotes `m • Q` -/
+theorem mult_entry_secp256k1 (lam : ℤ) (hlam : (lam : ZMod secp256k1_p) ≠ 0) (m : ℤ) (Q A : Point)
+    (hQ : AValid secp256k1_p cS Q) (hQH : absA secp256k1_p cS Q ∈ HG)
+    (h : multEntry (ctxOf EC.secp256k1) lam m Q = some A) :
+    AValid secp256k1_p cS A ∧ absA secp256k1_p cS A = m • absA secp256k1_p cS Q :=
+  multEntry_secp256k1 lam hlam m Q A hQ hQH h
+
+/-- **`double_mult_var(u, H, v, Q)` on secp256k1, pure-Python route (`_double_mult_endomorphism_secp256k1_var`), no
+hypothesis about the curve**: `u • H + v • Q` for every integers `u`, `v`, valid `H`, `Q ∈ ⟨G⟩` -/
+theorem double_mult_entry_secp256k1 (u v : ℤ) (P Q A : Point)
+    (hP : AValid secp256k1_p cS P) (hPH : absA secp256k1_p cS P ∈ HG)
+    (hQ : AValid secp256k1_p cS Q) (hQH : absA secp256k1_p cS Q ∈ HG)
+    (h : doubleMultEntry (ctxOf EC.secp256k1) u P v Q = some A) :
+    AValid secp256k1_p cS A ∧
+      absA secp256k1_p cS A = u • absA secp256k1_p cS P + v • absA secp256k1_p cS Q :=
+  doubleMultEntry_secp256k1 u v P Q A hP hPH hQ hQH h
+
+/-- `_mult_endomorphism_secp256k1(m, Q, ec, w)` itself, hypothesis-free on `⟨G⟩` -/
+theorem mult_endomorphism_secp256k1 (halfLen m w : ℕ) (Q r : JacPoint) (hQ : JValid secp256k1_p cS Q)
+    (hQH : absJ secp256k1_p cS Q ∈ HG) (h : multEndomorphism (ecOps cS) halfLen m Q w = some r) :
+    JValid secp256k1_p cS r ∧ absJ secp256k1_p cS r = (m : ℤ) • absJ secp256k1_p cS Q :=
+  multEndomorphism_secp256k1 halfLen m w Q r hQ hQH h
+
+/-- the generator is in `⟨G⟩` (non-vacuity of the membership hypothesis) -/
+example : absA secp256k1_p cS EC.secp256k1.G ∈ HG := absA_G_mem_HG
+end Secp256k1Route
+
+/-- **the group part of `Lawful` with NO hypothesis on `p mod 4`**: `Btc.EC.ops C` on the reduced valid pairs of the
+`n`-torsion is a `LawfulGroup` (all laws but the two about `lift_x`) for every odd prime `p` — theorems that never
+call `liftX` (ECDSA sign/verify, ECDH, …) can be instantiated on every catalogued curve, `p ≡ 1 (mod 4)` included -/
+theorem ec_ops_lawful_group {p : ℕ} [Fact p.Prime] {C : Curve} (K : CurveOk p C) :
+    ∃ L : LawfulGroup (opsSub K) (Pt p C.toCurveGroup), ∀ P, L.abs P = absA p C.toCurveGroup P.1 :=
+  ⟨lawfulGroup_ec K, fun _ => rfl⟩
 
 end Props.C01
